@@ -90,7 +90,7 @@ struct MetaEngine : Engine {
 	const char * property() const override { return "C11"; }
 	std::string rule() const override {
 		return "plan = one client (S: c-string family threading the returned string; D: one DString edited in place; E: one engine for the whole run), one generated document "
-		       "(abstract metadata list of 0..6 keys written in a random concrete spelling: key case/inner blanks, blanks around the colon, values as words joined by runs of blanks, indented continuation lines, "
+		       "(abstract metadata list of 0..6 keys written in a random concrete spelling: key case/inner blanks, blanks around the colon, values as words joined by runs of blanks, indented and un-indented continuation lines, "
 		       "YAML fences, block ended by blank line / EOF with newline / EOF without newline, CRLF) and 1..30 of HAS, KEYS, VALUE(key spelling), UPDATE(existing key), ADD(new key), RENDER (complete HTML), "
 		       "and for E also PARSE / CONVERT; reference model = ordered map + constant tail. Distinct = plan hash; non-trivial = >=2 ops with an UPDATE/ADD followed by a query.";
 	}
